@@ -57,6 +57,7 @@ type State struct {
 	DirtyCells map[*Cell]bool
 	Shared map[*Cell]string // variables captured by a goroutine this function started (value: where)
 	retSite string
+	Unrolled int // iterations of unrolled (specification-less) loops taken on this path
 	topFrame *Frame
 	pcSet  map[string]bool
 	Each   []*EachFact // element invariants of slices, instantiated at every element load
@@ -64,7 +65,7 @@ type State struct {
 }
 
 func (s *State) clone() *State {
-	n := &State{Alloc: s.Alloc, retSite: s.retSite, topFrame: s.topFrame}
+	n := &State{Alloc: s.Alloc, retSite: s.retSite, topFrame: s.topFrame, Unrolled: s.Unrolled}
 	n.Heap = make(map[string]*Term, len(s.Heap))
 	for k, v := range s.Heap {
 		n.Heap[k] = v
